@@ -33,6 +33,9 @@ pub fn classify(case: &StepCase, j: &Judged, t: &Tag, stats: &mut Stats) {
 
 pub fn run(ctx: &Ctx) -> i32 {
     if let Some(v) = &ctx.replay {
+        if crate::checks::soup::is_soup_replay(v) {
+            return crate::checks::soup::replay(ctx, P, v);
+        }
         return replay_step(ctx, P, v);
     }
     let forms = arith_forms();
@@ -121,6 +124,9 @@ pub fn run(ctx: &Ctx) -> i32 {
     let rule = "cases = ADD/SUB/CMP (B,W,L; immediate and register), ADDX, NEG, INC/DEC (#1/#2), ADDS/SUBS (#1/#2/#4), MULXU, DIVXU (divisor != 0 and fitting quotient constructed) with enumerated 8-bit operand triples, register pairs, CCR values and 16-bit boundary pairs crossed with proptest-generated register files / values; oracle = reference model post-state (result, each of H,N,Z,V,C, every other register, PC, memory). Non-trivial = at least one of H,N,Z,V,C changes, or the source register number is >= 8, or source and destination overlap; distinct by (form, register fields, flag outcome, operand value classes).";
     let mut extra = Map::new();
     extra.insert("masked_details".into(), json!(["DIVXU with zero divisor or non-fitting quotient: destination not compared (outside the property's quantifier)"]));
+    stats.merge(crate::checks::soup::phase(ctx, P, crate::checks::soup::Flavor::Arith, ctx.tier.pick(300000, 6000000), 0x2510000, false));
+    let rule_soup = format!("{}{}", rule, crate::checks::soup::RULE);
+    let rule: &str = &rule_soup;
     finish(ctx, P, stats, rule, vec!["reference model transcribed from the H8/300H programming manual (DESIGN 1.3, Appendix A.2)".into()], extra)
 }
 
